@@ -17,6 +17,17 @@ Tie: translator (T) + correspondence (C).
   elements) next to native types: anything but (sample size, number of draws) must be refused by the
   library error, and an accepted table must hold exactly what each generator delivered
   (oracle in Python, and compared with `Draws.generateDraws`).
+* `check_session` (round 3) drives HISTORIES within one process: catalogue entries, the generators of draws.py called
+  directly with every option (`shuffled`, `symmetric`, `base`, `skip`, given `uniform_numbers`, `antithetic`) and through
+  their deprecated aliases, `get_antithetic` of each kind of generator, repeated `Database.generate_draws` calls on one object
+  (same type for several variables, other numbers of draws, after `remove` / `panel` changed the sample size), mixed with a
+  caller working in place on arrays it received (`a *= c`, `a[:] = c`, rows reversed).  Every call must return what the
+  statement says whatever happened before (oracles on the real arrays; exact radical inverse), an array nobody touched
+  must keep its value, and the whole history is compared with `Draws.run` (what each call returned = the stateless function
+  of the call; the arrays as the caller holds them at the end).  The check itself is one long history: a violation is
+  confirmed in a fresh interpreter (`confirm_violations`) so that the stored case is the complete failing input.
+* `check_registry` drives histories of `set_random_number_generators` (accepted / refused tables, plain tuples, alias) and
+  then requests by name: a catalogue name always delivers the catalogue's draws (`Draws.resolve`, `registryAfter`).
 """
 
 from __future__ import annotations
@@ -45,12 +56,21 @@ MANIFEST = dict(
     'holds element [i][j] of each accepted array at [i][j][v] (generate_draws_table); the reference AS241 is odd and each branch receives '
     'an argument in the fitted range; the function as coded agrees with AS241 where the branch tests coincide (wichura_agrees_partial) and provably takes the '
     'wrong branch on (0,0.075) and (0.45,0.925] (known finding F02); the catalogue regenerated from the source matches its descriptions and entries '
-    'advertising different bases start with different numbers. Tie: translator (ast of native_draws.py) + correspondence with recorded random streams.',
+    'advertising different bases start with different numbers. Round 3 - histories within one process (Model/DrawsSession.lean): for every list of calls '
+    '(catalogue entries, get_halton_draws with shuffled / symmetric / base / skip, get_latin_hypercube_draws and get_normal_wichura_draws with given uniform numbers '
+    'and their error branches) mixed with in-place operations of the caller on arrays it received, every call returns the stateless function of the call '
+    '(session_every_call_is_stateless, session_call_after_any_history), a caller writes only the array it names (session_caller_writes_only_its_array, '
+    'session_untouched_array_keeps_value), a Halton entry / direct call after ANY history is the radical-inverse sequence (halton_entry_after_any_history, '
+    'halton_call_after_any_history), shuffled=True is a permutation of it (halton_shuffled_is_permutation), refused requests (direct_calls_refuse); the registry of '
+    'user-defined generators never holds a catalogue name and a catalogue name always resolves to the catalogue entry after any history of registrations '
+    '(catalogue_name_never_hijacked, registration_replaces_or_refuses, resolve_unknown_or_user). Tie: translator (ast of native_draws.py) + correspondence with '
+    'recorded random streams, on single calls AND on generated histories run in one process (real arrays vs Draws.run, bit for bit).',
     design='DESIGN.md §5 C11',
     technique='Lean 4 theorems over an executable model + catalogue translator + differential correspondence with recorded random streams',
     note='Partial: accuracy of AS241 itself w.r.t. the normal quantile is taken from the literature (scipy.stats.norm.ppf is a second opinion in the search); '
     'normal draws for u in (0,0.075) and (0.45,0.925] are a KNOWN FINDING (F02: wrong branch test, error up to 3.8), reported and not repaired because the '
-    'repair changes seeded draws pinned by two baseline tests.',
+    'repair changes seeded draws pinned by two baseline tests. The docstring of get_halton_draws says "each series is shuffled"; the code shuffles the flat array as a '
+    'whole (modelled as coded; the statement of C11 does not speak about it). set_random_number_generators replaces the registry (modelled); a merge would only be noted.',
 )
 
 TRUSTED = [
@@ -58,18 +78,25 @@ TRUSTED = [
     'the translator (ast of native_draws.py, signatures of draws.*) reports the source faithfully; every entry is also run and compared',
     'accuracy of the published AS241 coefficients (Wichura 1988); scipy.stats.norm.ppf only as a second opinion in the search',
     'R vs IEEE double for the LHS / AS241 statements; Halton numbers are compared in exact rational arithmetic',
+    'sessions: the caller reaches the arrays only through the objects the calls returned (not through .base of a view); numpy in-place arithmetic on them',
+    'pandas / Database.remove / Database.panel used by the sessions to change the sample size between two calls of generate_draws',
 ]
 ASSUMPTIONS = [
     'base >= 2 (Halton theorem)',
     'uniform inputs in [0,1) and a permutation of range(N) (Latin hypercube theorem)',
     '0 < u < 1 (AS241 theorems)',
+    'sessions: the two random calls deliver to each call the recorded numbers / permutation (they are parameters of the call in the model)',
+    'shuffled Halton theorem: the permutation delivered by np.random.shuffle is a permutation of range(length)',
 ]
 RULE = (
     'all 21 native types x sample sizes 1..7 x even draw counts 2..24 (plus odd counts as malformed stream) with recorded random streams; '
     'get_normal_wichura_draws on a grid dense in both tails (1e-300 .. 1-1e-16) and random u; Database.generate_draws (also through the deprecated alias, '
     'cross-section and panel data) with 1..3 variables whose user-defined generators deliver every layout of array (exact in C / Fortran order, transposed, '
     'one-dimensional, column, row, extra axis of length 1, another factorisation of n*R, other numbers of elements, empty, 0-d) mixed with native types; '
-    'non-trivial = array with >= 4 elements, or a quantile input outside [0.4, 0.6]'
+    'histories within one process: 7 fixed + generated sessions of 4..10 operations (catalogue entries biased to one base, direct generators with all options and '
+    'deprecated aliases, get_antithetic of uniform / MLHS / Halton, generate_draws on one Database with repeated types and after remove / panel, caller scale / fill / '
+    'reverse on earlier arrays), each run from its first operation; histories of 1..4 registrations of user-defined generators (with attempts on catalogue names) followed '
+    'by requests by name; non-trivial = array with >= 4 elements, a quantile input outside [0.4, 0.6], a session of >= 2 operations, any registry history'
 )
 
 W_F02 = 'draws.get_normal_wichura_draws: np.abs(uniform_numbers) <= 0.45'
@@ -478,13 +505,16 @@ def native():
     return native_random_number_generators
 
 
-def run_type(name, n, R, stream):
-    """real generator of a catalogued type; returns rows (list of lists) or {'err': kind}"""
+def run_type(name, n, R, stream, keep=None):
+    """real generator of a catalogued type; returns rows (list of lists) or {'err': kind}.
+    `keep` (a list) receives the very object the generator returned (sessions work on it in place later)"""
     with patched(stream):
         try:
             a = native()[name].generator(n, R)
         except Exception as e:  # noqa: BLE001
             return {'err': core.exc_kind(e)}
+    if keep is not None:
+        keep.append(a)
     a = np.asarray(a, dtype=float)
     return {'rows': a.tolist(), 'shape': list(a.shape)}
 
@@ -533,10 +563,10 @@ def qclose(a, b):
     return core.close(a, b, rel=QTOL, abs_=1e-15)
 
 
-def check_type(ctx, res, name, n, R, rng, use_model=True, stream=None):
+def check_type(ctx, res, name, n, R, rng, use_model=True, stream=None, keep=None):
     adv = parse_description(native()[name].description)
     st = stream or Stream(rng, edges=adv['normal'] and adv['kind'] == 0)
-    real = run_type(name, n, R, st)
+    real = run_type(name, n, R, st, keep=keep)
     case = {'kind': 'catalogue', 'name': name, 'n': n, 'R': R, 'us': list(st.us), 'perms': [list(p) for p in st.perms]}
     res.count({'type': name, 'n': n, 'R': R, 'h': core.canon_hash(st.us)}, nontrivial=n * R >= 4)
     res.tally(f'type:{name}')
@@ -1168,6 +1198,708 @@ def check_malformed(ctx, res, rng):
                            'perm': st.perms[0] if st.perms else list(range(n * max(R, 1)))}, cb)
 
 
+# --------------------------------------------------------------------------- sessions: histories within one process
+#
+# The generators are functions of their arguments (and of what the two random calls deliver while they run):
+# whatever was called before in the same process - shuffled or not, same base or not, through a catalogue entry,
+# a generator of draws.py, a deprecated alias or Database.generate_draws - and whatever the caller did in place to
+# the arrays it received, a call returns what the statement says.  A session case is self-contained: the list of
+# operations with the recorded random streams; it is run from its first operation in the current process.
+
+_PROCESS_SESSIONS = []   # (operations, number of calls) of every session run in this process so far, in order
+
+W_LATER = 'draws / native_draws: an array handed over by an earlier call changes without the caller touching it'
+SESSION_MUT = ('scale', 'fill', 'reverse')
+
+
+class SessionRes:
+    """what check_type reports about one call of a session, filed under the history up to that call"""
+
+    def __init__(self, res, case, upto):
+        self.res, self.case, self.upto = res, case, upto
+
+    def _case(self, c):
+        out = {'kind': 'session', 'n_db': self.case.get('n_db'), 'session_no': self.case.get('session_no'), 'ops': self.case['ops'][: self.upto + 1]}
+        if isinstance(c, dict) and c.get('u'):
+            out['u'] = c['u']
+        return out
+
+    def count(self, case, nontrivial=True):
+        self.res.count(case, nontrivial=nontrivial)
+
+    def tally(self, key, n=1):
+        self.res.tally('session:' + key.split(':')[0], n)
+
+    def violate(self, what, case, observed, expected, where=''):
+        self.res.violate(f'operation {self.upto} of a session in one process: {what}', self._case(case), observed, expected, where=where)
+
+    def diverge(self, what, case, model, impl, where=''):
+        self.res.diverge(f'operation {self.upto} of a session in one process: {what}', self._case(case), model, impl, where=where)
+
+    @property
+    def notes(self):
+        return self.res.notes
+
+
+def _dr(fn, alias):
+    """a generator of draws.py, or its deprecated alias (secondary entry point)"""
+    import biogeme.draws as dr
+    import biogeme.deprecated as dep
+
+    old = {'get_uniform': 'getUniform', 'get_latin_hypercube_draws': 'getLatinHypercubeDraws', 'get_halton_draws': 'getHaltonDraws',
+           'get_antithetic': 'getAntithetic', 'get_normal_wichura_draws': 'getNormalWichuraDraws'}
+    if alias and not getattr(dep, 'RAISE_EXCEPTION', False) and hasattr(dr, old[fn]):
+        return getattr(dr, old[fn]), True
+    return getattr(dr, fn), False
+
+
+def gen_session(rng):
+    names = list(native())
+    advs = {k: parse_description(t.description) for k, t in native().items()}
+    focus = rng.choice([2, 3, 5])
+    same = [k for k in names if advs[k]['base'] == focus] or names
+    seen = []
+
+    def size():
+        if seen and rng.random() < 0.55:
+            return rng.choice(seen)
+        sz = (rng.choice([1, 2, 3, 5]), rng.choice([2, 4, 6, 8, 10]))
+        seen.append(sz)
+        return sz
+
+    def base():
+        return focus if rng.random() < 0.75 else rng.choice([2, 3, 5, 7, 4])
+
+    ops, targets, n_calls = [], [], 0
+    n_db = rng.choice([1, 2, 3, 5, 6])
+    for _ in range(rng.randint(4, 10)):
+        x = rng.random()
+        if x < 0.24 and targets:
+            kind = rng.choice(SESSION_MUT)
+            op = {'t': kind, 'k': rng.choice(targets[-4:])}
+            if kind == 'scale':
+                op['c'] = rng.choice([100.0, -1.0, 0.5, 0.0, 3.0])
+            elif kind == 'fill':
+                op['c'] = rng.choice([7.0, 0.25, -2.0])
+            ops.append(op)
+            continue
+        n, R = size()
+        alias = rng.random() < 0.25
+        if x < 0.56:
+            ops.append({'t': 'cat', 'name': rng.choice(same) if rng.random() < 0.65 else rng.choice(names), 'n': n, 'R': R})
+        elif x < 0.74:
+            ops.append({'t': 'halton', 'base': base(), 'skip': rng.choice([10, 10, 0, rng.randint(0, 40)]), 'n': n, 'R': rng.choice([R, R + 1]),
+                        'symmetric': rng.random() < 0.3, 'shuffled': rng.random() < 0.6, 'alias': alias})
+        elif x < 0.79:
+            given = rng.random() < 0.5
+            bad = given and rng.random() < 0.15
+            ops.append({'t': 'lhs', 'n': n, 'R': R, 'symmetric': rng.random() < 0.4, 'alias': alias,
+                        'given': [rng.choice([rng.random(), 0.0, 0.5, 0.999]) for _ in range(n * R + (1 if bad else 0))] if given else None})
+        elif x < 0.85:
+            anti = rng.random() < 0.4
+            Rw = R + 1 if (anti and rng.random() < 0.15) else R
+            given = rng.random() < 0.6
+            cnt = n * (Rw // 2 if anti else Rw) + (1 if given and rng.random() < 0.1 else 0)
+            ops.append({'t': 'wichura', 'n': n, 'R': Rw, 'antithetic': anti, 'alias': alias,
+                        'given': [rng.choice([rng.random() or 0.5, rng.choice(Stream.EDGE)]) for _ in range(cnt)] if given else None})
+        elif x < 0.89:
+            ops.append({'t': 'uniform', 'n': n, 'R': R, 'symmetric': rng.random() < 0.5, 'alias': alias})
+        elif x < 0.93:
+            inner = rng.choice(['uniform', 'mlhs', 'halton'])
+            op = {'t': 'antithetic', 'inner': inner, 'n': n, 'R': R, 'alias': alias}
+            if inner == 'halton':
+                op.update({'base': base(), 'skip': rng.choice([10, 0, 3])})
+            ops.append(op)
+        elif x < 0.95:
+            # an edit of the session's Database between two calls of generate_draws: the sample size changes
+            ops.append({'t': 'panel', 'N': n_db} if rng.random() < 0.5 else {'t': 'remove', 'N': n_db, 'keep': rng.randint(1, n_db)})
+            continue
+        else:
+            k = rng.randint(1, 3)
+            vs = [rng.choice(same) if rng.random() < 0.6 else rng.choice(names) for _ in range(k)]
+            order = list(range(k))
+            rng.shuffle(order)
+            ops.append({'t': 'gd', 'N': n_db, 'types': vs, 'names': rng.sample(['xi', 'b10', 'b2', 'eps', 'Zeta', 'a_draw'], k), 'dict_order': order, 'R': R,
+                        'entry': rng.choice(['generate_draws', 'generate_draws', 'generateDraws'])})
+            n_calls += k
+            continue
+        targets.append(n_calls)
+        n_calls += 1
+    return {'kind': 'session', 'n_db': n_db, 'ops': ops}
+
+
+def _halton_expected(b, skip, count, sym):
+    out = [radical_inverse(b, k + skip + 1) for k in range(count)]
+    return [2 * x - 1 for x in out] if sym else out
+
+
+def _frac_close(x, exp, exact):
+    return Fraction(x) == exp if exact else abs(Fraction(x) - exp) <= Fraction(1, 10**12)
+
+
+def _uniforms_of(adv, n, R):
+    """how many uniform numbers / shuffles a catalogued type consumes (from its description)"""
+    if adv['kind'] == 1:
+        return 0, 0
+    cnt = n * (R // 2 if adv['antithetic'] else R)
+    return cnt, (1 if adv['kind'] == 2 else 0)
+
+
+def run_session(ctx, res, case, use_model=True, rng=None):
+    """run the operations of a session in this process; oracles of the statement on every call; the whole
+    history against Draws.run (what each call returned, and the arrays as the caller holds them at the end)"""
+    import warnings
+    import pandas as pd
+    import biogeme.database as db
+    import biogeme.deprecated as dep
+    from biogeme.exceptions import BiogemeError
+
+    ops = case['ops']
+    rng = rng or ctx.rng
+    held = []        # per model call: the object the call returned (None: error / slice of a table)
+    snap = []        # per model call: {'rows': [[..]]} | {'err': kind} at the moment the call returned
+    normal = []      # per model call: values compared with a tolerance (normal quantiles)
+    touched = set()  # model calls whose array the caller modified
+    mops = []        # the history for the Lean model
+    databases = {}
+    case['session_no'] = len(_PROCESS_SESSIONS)
+    res.count({'session': core.canon_hash([{k: v for k, v in o.items() if k not in ('us', 'perms')} for o in ops])}, nontrivial=len(ops) >= 2)
+    res.tally('session')
+    res.tally('session:ops', len(ops))
+
+    def sub(i, extra=None):
+        c = {'kind': 'session', 'n_db': case.get('n_db'), 'session_no': case.get('session_no'), 'ops': ops[: i + 1]}
+        if extra:
+            c.update(extra)
+        return c
+
+    def the_db(op):
+        """the Database of the session (one per initial number of rows), used again by every later operation on it"""
+        n0 = op.get('N') or case['n_db']
+        if n0 not in databases:
+            frame = pd.DataFrame({'id': [float(j // 2) for j in range(n0)], 'x': [float(j) for j in range(n0)], 'y': [1.0] * n0})
+            databases[n0] = (db.Database('c11session', frame), {'rows': n0, 'panel': False})
+        return databases[n0]
+
+    def stream_of(op):
+        if op.get('us') is not None or op.get('perms') is not None:
+            return Stream(us=op.get('us') or [], perms=op.get('perms') or [])
+        return Stream(rng, edges=False)
+
+    def record(op, st):
+        op['us'], op['perms'] = list(st.us), [list(p) for p in st.perms]
+
+    def call(i, op, fn, args, kwargs, st):
+        """one direct call of draws.py; files the outcome; returns the array or None"""
+        f, used_alias = _dr(fn, op.get('alias'))
+        res.tally(f'session:{fn}' + (':alias' if used_alias else ''))
+        if used_alias and 'uniform_numbers' in kwargs:
+            kwargs = {**kwargs, 'uniformNumbers': kwargs['uniform_numbers']}
+            del kwargs['uniform_numbers']
+        with patched(st), warnings.catch_warnings():
+            warnings.simplefilter('ignore')
+            try:
+                a = f(*args, **kwargs)
+            except Exception as e:  # noqa: BLE001
+                record(op, st)
+                held.append(None)
+                snap.append({'err': core.exc_kind(e)})
+                return None
+        record(op, st)
+        held.append(a)
+        arr = np.array(a, dtype=float, copy=True)
+        snap.append({'rows': arr.tolist(), 'shape': list(arr.shape)})
+        return arr
+
+    for i, op in enumerate(ops):
+        t = op['t']
+        if t in SESSION_MUT:
+            k = op['k']
+            a = held[k] if k < len(held) else None
+            if not isinstance(a, np.ndarray) or not a.flags.writeable or a.ndim != 2:
+                continue
+            if t == 'scale':
+                a *= op['c']
+                mops.append({'t': 'scale', 'k': k, 'c': f2b(op['c'])})
+            elif t == 'fill':
+                a[...] = op['c']
+                mops.append({'t': 'fill', 'k': k, 'c': f2b(op['c'])})
+            else:
+                a[:] = a[::-1].copy()
+                mops.append({'t': 'reverse', 'k': k})
+            touched.add(k)
+            res.tally(f'session:caller:{t}')
+            continue
+        st = stream_of(op)
+        if t == 'cat':
+            keep = []
+            name, n, R = op['name'], op['n'], op['R']
+            adv = parse_description(native()[name].description)
+            sres = SessionRes(res, case, i)
+            check_type(ctx, sres, name, n, R, None, use_model=use_model, stream=st, keep=keep)
+            record(op, st)
+            a = keep[0] if keep else None
+            held.append(a if isinstance(a, np.ndarray) else None)
+            if a is None:
+                snap.append({'err': 'raised'})
+            else:
+                arr = np.array(a, dtype=float, copy=True)
+                snap.append({'rows': arr.tolist(), 'shape': list(arr.shape)})
+            normal.append(adv['normal'])
+            mops.append({'t': 'cat', 'name': name, 'n': n, 'R': R, 'us': [f2b(u) for u in st.us], 'perm': st.perms[0] if st.perms else []})
+            continue
+        if t == 'halton':
+            b, skip, n, R, sym, sh = op['base'], op['skip'], op['n'], op['R'], op['symmetric'], op['shuffled']
+            arr = call(i, op, 'get_halton_draws', (n, R), dict(symmetric=sym, base=b, skip=skip, shuffled=sh), st)
+            normal.append(False)
+            mops.append({'t': 'halton', 'base': b, 'skip': skip, 'n': n, 'R': R, 'symmetric': sym, 'shuffled': sh, 'perm': st.perms[0] if st.perms else []})
+            where = 'draws.get_halton_draws'
+            if arr is None:
+                res.violate(f'operation {i} of a session: get_halton_draws raises {snap[-1]["err"]}', sub(i), snap[-1]['err'], f'array {n} x {R}', where=where)
+                continue
+            if list(arr.shape) != [n, R]:
+                res.violate(f'operation {i} of a session: get_halton_draws returns shape {list(arr.shape)}', sub(i), list(arr.shape), [n, R], where=where)
+                continue
+            exp = _halton_expected(b, skip, n * R, sym)
+            flat = arr.reshape(-1).tolist()
+            exact = b in (2, 4)
+            if sh:
+                # "shuffled": the same numbers in another order
+                got = sorted(flat)
+                ok = all(_frac_close(x, e, exact) for x, e in zip(got, sorted(exp)))
+                what = 'the shuffled Halton draws are not a permutation of the radical-inverse sequence'
+            else:
+                ok = all(_frac_close(x, e, exact) for x, e in zip(flat, exp))
+                what = 'get_halton_draws is not the radical-inverse sequence'
+            if not ok:
+                res.violate(f'operation {i} of a session in one process: {what} of base {b} after skipping {skip}', sub(i), flat[:4], [float(e) for e in exp[:4]], where=where)
+            continue
+        if t == 'uniform':
+            n, R, sym = op['n'], op['R'], op['symmetric']
+            arr = call(i, op, 'get_uniform', (n, R), dict(symmetric=sym), st)
+            normal.append(False)
+            mops.append({'t': 'cat', 'family': 'uniform', 'symmetric': sym, 'antithetic': False, 'normal': False, 'n': n, 'R': R,
+                         'us': [f2b(u) for u in st.us], 'perm': []})
+            where = 'draws.get_uniform'
+            if arr is None or list(arr.shape) != [n, R]:
+                res.violate(f'operation {i} of a session: get_uniform does not return an array {n} x {R}', sub(i), snap[-1].get('err', snap[-1].get('shape')), [n, R], where=where)
+                continue
+            exp = [2.0 * u - 1.0 for u in st.us] if sym else list(st.us)
+            if arr.reshape(-1).tolist() != exp:
+                res.violate(f'operation {i} of a session in one process: get_uniform is not {"2u-1 of " if sym else ""}the uniform numbers drawn', sub(i),
+                            arr.reshape(-1).tolist()[:4], exp[:4], where=where)
+            continue
+        if t == 'lhs':
+            n, R, sym = op['n'], op['R'], op['symmetric']
+            kw = dict(symmetric=sym)
+            if op['given'] is not None:
+                kw['uniform_numbers'] = np.array(op['given'], dtype=float)
+            arr = call(i, op, 'get_latin_hypercube_draws', (n, R), kw, st)
+            us = list(op['given']) if op['given'] is not None else list(st.us)
+            normal.append(False)
+            mops.append({'t': 'lhs', 'n': n, 'R': R, 'symmetric': sym, 'us': [f2b(u) for u in us], 'perm': st.perms[0] if st.perms else []})
+            where = 'draws.get_latin_hypercube_draws'
+            if len(us) != n * R:
+                if snap[-1].get('err') != 'BiogemeError':
+                    res.violate(f'operation {i} of a session: {len(us)} uniform numbers for {n} x {R} draws are not refused by the library error', sub(i),
+                                snap[-1].get('err', snap[-1].get('shape')), 'BiogemeError', where=where)
+                continue
+            if arr is None or list(arr.shape) != [n, R]:
+                res.violate(f'operation {i} of a session: get_latin_hypercube_draws does not return an array {n} x {R}', sub(i),
+                            snap[-1].get('err', snap[-1].get('shape')), [n, R], where=where)
+                continue
+            ok, why = strata_ok([unit_of(x, 'sym' if sym else 'unit') for x in arr.reshape(-1).tolist()], n * R)
+            if not ok:
+                res.violate(f'operation {i} of a session in one process: get_latin_hypercube_draws: {why}', sub(i), why, 'one point per stratum', where=where)
+            continue
+        if t == 'wichura':
+            n, R, anti = op['n'], op['R'], op['antithetic']
+            kw = dict(antithetic=anti)
+            if op['given'] is not None:
+                kw['uniform_numbers'] = np.array(op['given'], dtype=float)
+            arr = call(i, op, 'get_normal_wichura_draws', (n, R), kw, st)
+            us = list(op['given']) if op['given'] is not None else list(st.us)
+            normal.append(True)
+            mops.append({'t': 'wichura', 'n': n, 'R': R, 'antithetic': anti, 'us': [f2b(u) for u in us]})
+            where = 'draws.get_normal_wichura_draws'
+            r = R // 2 if anti else R
+            if (anti and R % 2 == 1) or len(us) != n * r:
+                if snap[-1].get('err') != 'BiogemeError':
+                    res.violate(f'operation {i} of a session: an odd number of antithetic draws / a wrong number of uniform numbers is not refused by the library error',
+                                sub(i), snap[-1].get('err', snap[-1].get('shape')), 'BiogemeError', where=where)
+                continue
+            if arr is None or list(arr.shape) != [n, R]:
+                res.violate(f'operation {i} of a session: get_normal_wichura_draws does not return an array {n} x {R}', sub(i),
+                            snap[-1].get('err', snap[-1].get('shape')), [n, R], where=where)
+                continue
+            rows = arr.tolist()
+            if anti and any(row[r:] != [-x for x in row[:r]] for row in rows):
+                res.violate(f'operation {i} of a session: antithetic normal draws: the second half is not the mirror image of the first', sub(i),
+                            rows[0][r:][:4], [-x for x in rows[0][:r]][:4], where=where)
+            zs = [x for row in rows for x in row[:r]]
+            _quantile_oracle(ctx, res, us, zs, lambda extra, i=i: sub(i, extra), f'operation {i} of a session in one process: get_normal_wichura_draws', use_model)
+            continue
+        if t == 'antithetic':
+            import biogeme.draws as dr
+
+            n, R, inner = op['n'], op['R'], op['inner']
+            if inner == 'uniform':
+                g, fam = dr.get_uniform, {'family': 'uniform'}
+            elif inner == 'mlhs':
+                g, fam = dr.get_latin_hypercube_draws, {'family': 'mlhs'}
+            else:
+                b, skip = op['base'], op['skip']
+                g, fam = (lambda s_, r_, b=b, skip=skip: dr.get_halton_draws(s_, r_, base=b, skip=skip)), {'family': 'halton', 'base': b, 'skip': skip}
+            arr = call(i, op, 'get_antithetic', (g, n, R), {}, st)
+            normal.append(False)
+            mops.append({'t': 'cat', **fam, 'symmetric': False, 'antithetic': True, 'normal': False, 'n': n, 'R': R,
+                         'us': [f2b(u) for u in st.us], 'perm': st.perms[0] if st.perms else []})
+            where = 'draws.get_antithetic'
+            if arr is None or list(arr.shape) != [n, R]:
+                res.violate(f'operation {i} of a session: get_antithetic does not return an array {n} x {R}', sub(i), snap[-1].get('err', snap[-1].get('shape')), [n, R], where=where)
+                continue
+            r = R // 2
+            rows = arr.tolist()
+            if any(row[r:] != [1.0 - x for x in row[:r]] for row in rows):
+                res.violate(f'operation {i} of a session: get_antithetic: the second half is not the mirror image of the first', sub(i),
+                            rows[0][r:][:4], [1.0 - x for x in rows[0][:r]][:4], where=where)
+            first = [x for row in rows for x in row[:r]]
+            if inner == 'uniform' and first != list(st.us):
+                res.violate(f'operation {i} of a session: get_antithetic(get_uniform): the first half is not the uniform numbers drawn', sub(i), first[:4], st.us[:4], where=where)
+            if inner == 'mlhs':
+                ok, why = strata_ok(first, n * r)
+                if not ok:
+                    res.violate(f'operation {i} of a session: get_antithetic(get_latin_hypercube_draws): {why}', sub(i), why, 'one point per stratum', where=where)
+            if inner == 'halton':
+                exp = _halton_expected(op['base'], op['skip'], n * r, False)
+                if not all(_frac_close(x, e, op['base'] in (2, 4)) for x, e in zip(first, exp)):
+                    res.violate(f'operation {i} of a session in one process: get_antithetic(Halton base {op["base"]}): the first half is not the radical-inverse sequence', sub(i),
+                                first[:4], [float(e) for e in exp[:4]], where=where)
+            continue
+        if t in ('panel', 'remove'):
+            database, dstate = the_db(op)
+            if t == 'panel':
+                database.panel('id')
+                dstate['panel'] = True
+            elif op['keep'] < dstate['rows']:
+                from biogeme.expressions import Variable
+
+                database.remove(Variable('x') >= float(op['keep']))
+                dstate['rows'] = op['keep']
+            res.tally(f'session:database:{t}')
+            continue
+        if t == 'gd':
+            R, types, names_ = op['R'], op['types'], op['names']
+            database, dstate = the_db(op)
+            # sample size = rows of the table as it is now, or the individuals (runs of equal ids) of a panel
+            N = (dstate['rows'] + 1) // 2 if dstate['panel'] else dstate['rows']
+            entry = op['entry'] if not getattr(dep, 'RAISE_EXCEPTION', False) else 'generate_draws'
+            res.tally(f'session:{entry}')
+            dt = {names_[j]: types[j] for j in op['dict_order']}
+            with patched(st), warnings.catch_warnings():
+                warnings.simplefilter('ignore')
+                try:
+                    table = np.asarray(getattr(database, entry)(dt, names_, R))
+                    err = None
+                except Exception as e:  # noqa: BLE001
+                    table, err = None, core.exc_kind(e)
+            record(op, st)
+            ok_shape = table is not None and list(table.shape) == [N, R, len(types)]
+            if not ok_shape:
+                res.violate(f'operation {i} of a session: generate_draws does not return a table {N} x {R} x {len(types)}', sub(i),
+                            err or list(table.shape), [N, R, len(types)], where=W_GD)
+            us_left, perms_left = list(st.us), [list(p) for p in st.perms]
+            for j, name in enumerate(types):
+                adv = parse_description(native()[name].description)
+                cnt, nperm = _uniforms_of(adv, N, R)
+                us_j, us_left = us_left[:cnt], us_left[cnt:]
+                perms_j, perms_left = perms_left[:nperm], perms_left[nperm:]
+                held.append(None)
+                normal.append(adv['normal'])
+                mops.append({'t': 'cat', 'name': name, 'n': N, 'R': R, 'us': [f2b(u) for u in us_j], 'perm': perms_j[0] if perms_j else []})
+                if not ok_shape:
+                    snap.append({'err': err or 'shape'})
+                    continue
+                sl = np.array(table[:, :, j], dtype=float, copy=True)
+                snap.append({'rows': sl.tolist(), 'shape': [N, R], 'final': (table, j)})
+                half = R // 2
+                gen_part = [x for row in sl.tolist() for x in (row[:half] if adv['antithetic'] else row)]
+                if adv['kind'] == 1 and not adv['normal']:
+                    exp = _halton_expected(adv['base'], adv['skip'] if adv['skip'] is not None else 10, len(gen_part), adv['interval'] == 'sym')
+                    if not all(_frac_close(x, e, adv['base'] == 2) for x, e in zip(gen_part, exp)):
+                        res.violate(f'operation {i} of a session in one process: the draws generate_draws stored for variable {j} ({name}) are not the radical-inverse '
+                                    f'sequence of base {adv["base"]}', sub(i), gen_part[:4], [float(e) for e in exp[:4]], where=W_GD)
+                elif adv['kind'] != 1:
+                    rr = run_type(name, N, R, Stream(us=us_j, perms=perms_j))
+                    if 'rows' not in rr or rr['rows'] != sl.tolist():
+                        res.violate(f'operation {i} of a session in one process: the draws generate_draws stored for variable {j} are not the array of its type {name} '
+                                    f'on the same random numbers', sub(i), sl.tolist()[0][:3], rr.get('rows', [[rr.get('err')]])[0][:3], where=W_GD)
+            continue
+        raise ValueError(f'unknown session operation {t}')
+
+    # ---- the arrays the caller did not touch still hold what was returned (property side, no model)
+    final = []
+    for k, (a, s0) in enumerate(zip(held, snap)):
+        cur = None
+        if isinstance(a, np.ndarray):
+            cur = np.array(a, dtype=float, copy=True).tolist()
+        elif 'final' in s0:
+            tb, j = s0['final']
+            cur = np.array(tb[:, :, j], dtype=float, copy=True).tolist()
+        final.append(cur)
+        if cur is not None and k not in touched and 'rows' in s0 and [[f2b(x) for x in r] for r in cur] != [[f2b(x) for x in r] for r in s0['rows']]:
+            res.violate(f'the array call {k} of a session returned was changed by a later operation on something else', sub(len(ops) - 1),
+                        cur[0][:4], s0['rows'][0][:4], where=W_LATER)
+    _PROCESS_SESSIONS.append((ops, len(snap)))
+    if not use_model or not mops:
+        return
+
+    def cb(ans):
+        if ans.get('calls') != len(snap):
+            res.diverge('session: number of calls', sub(len(ops) - 1), ans.get('calls'), len(snap))
+            return
+
+        def same(m, rows, tol):
+            if len(m) != len(rows) or any(len(x) != len(y) for x, y in zip(m, rows)):
+                return False
+            if tol:
+                return all(qclose(b2f(x), y) or (b2f(x) == y) for r1, r2 in zip(m, rows) for x, y in zip(r1, r2))
+            return all(x == f2b(y) for r1, r2 in zip(m, rows) for x, y in zip(r1, r2))
+
+        for k, (m, s0) in enumerate(zip(ans['returned'], snap)):
+            if ('err' in m) != ('err' in s0):
+                res.diverge(f'session: call {k}: refused by the model / by the code (Draws.callResult)', sub(len(ops) - 1), m.get('err', 'array'), s0.get('err', s0.get('shape')))
+                return
+            if 'rows' in m and not same(m['rows'], s0['rows'], normal[k]):
+                res.diverge(f'session: what call {k} returned vs Draws.run (the stateless function of the call)', sub(len(ops) - 1),
+                            [b2f(x) for x in m['rows'][0][:4]] if m['rows'] else [], s0['rows'][0][:4] if s0['rows'] else [])
+                return
+        for k, (m, cur) in enumerate(zip(ans['held'], final)):
+            if cur is not None and 'rows' in m and not same(m['rows'], cur, normal[k]):
+                res.diverge(f'session: the array of call {k} as the caller holds it at the end vs Draws.run (held)', sub(len(ops) - 1),
+                            [b2f(x) for x in m['rows'][0][:4]] if m['rows'] else [], cur[0][:4] if cur else [])
+                return
+
+    ctx.batch.add({'op': 'session', 'ops': mops}, cb)
+
+
+def _quantile_oracle(ctx, res, us, zs, mkcase, label, use_model):
+    """normal draws = standard normal quantiles of the uniform numbers, near machine precision"""
+    if use_model:
+
+        def cb(a):
+            ref = [b2f(v) for v in a['ref']]
+            bad = [(u, z, q) for u, z, q in zip(us, zs, ref) if not qclose(z, q)]
+            for grp in ([b for b in bad if not in_defect_region(b[0])], [b for b in bad if in_defect_region(b[0])]):
+                if grp:
+                    res.violate(f'{label} is not the standard normal quantile to near machine precision (reference: AS241 as published)',
+                                mkcase({'u': [g[0] for g in grp][:40]}), [g[1] for g in grp][:3], [g[2] for g in grp][:3], where=W_F02)
+
+        ctx.batch.add({'op': 'wichura', 'us': [f2b(u) for u in us]}, cb)
+        return
+    from scipy.stats import norm
+
+    bad = [(u, z, float(norm.ppf(u))) for u, z in zip(us, zs) if 0.0 < u < 1.0 and not core.close(z, float(norm.ppf(u)), rel=1e-12, abs_=1e-14)]
+    for grp in ([b for b in bad if not in_defect_region(b[0])], [b for b in bad if in_defect_region(b[0])]):
+        if grp:
+            res.violate(f'{label} is not the standard normal quantile to near machine precision (scipy second opinion)',
+                        mkcase({'u': [g[0] for g in grp][:40]}), [g[1] for g in grp][:3], [g[2] for g in grp][:3], where=W_F02)
+
+
+def _session_corpus():
+    """fixed histories that run first: one per mechanism by which an earlier operation could reach a later call
+    (shuffled call then catalogue entries of the same base; caller scribbling over an array then the same request
+    again; a table of generate_draws between two direct calls; repeated identical requests)"""
+    out = []
+    for b in (2, 3, 5):
+        out.append({'kind': 'session', 'n_db': 3, 'ops': [
+            {'t': 'cat', 'name': f'UNIFORM_HALTON{b}', 'n': 3, 'R': 10},
+            {'t': 'halton', 'base': b, 'skip': 10, 'n': 2, 'R': 15, 'symmetric': False, 'shuffled': True, 'alias': False},
+            {'t': 'cat', 'name': f'UNIFORM_HALTON{b}', 'n': 3, 'R': 10},
+            {'t': 'cat', 'name': f'UNIFORMSYM_HALTON{b}', 'n': 2, 'R': 6},
+            {'t': 'halton', 'base': b, 'skip': 0, 'n': 1, 'R': 7, 'symmetric': True, 'shuffled': True, 'alias': True},
+            {'t': 'cat', 'name': f'NORMAL_HALTON{b}', 'n': 2, 'R': 4},
+            {'t': 'halton', 'base': b, 'skip': 10, 'n': 5, 'R': 8, 'symmetric': False, 'shuffled': False, 'alias': False},
+        ]})
+        out.append({'kind': 'session', 'n_db': 2, 'ops': [
+            {'t': 'cat', 'name': f'UNIFORM_HALTON{b}', 'n': 5, 'R': 8},
+            {'t': 'scale', 'k': 0, 'c': 100.0},
+            {'t': 'cat', 'name': f'UNIFORM_HALTON{b}', 'n': 5, 'R': 8},
+            {'t': 'fill', 'k': 1, 'c': 7.0},
+            {'t': 'cat', 'name': f'UNIFORMSYM_HALTON{b}', 'n': 5, 'R': 8},
+            {'t': 'gd', 'types': [f'UNIFORM_HALTON{b}', 'UNIFORM', f'UNIFORMSYM_HALTON{b}'], 'names': ['b10', 'b2', 'a_draw'], 'dict_order': [2, 0, 1], 'R': 4,
+             'N': 2, 'entry': 'generate_draws'},
+            {'t': 'halton', 'base': b, 'skip': 3, 'n': 2, 'R': 3, 'symmetric': False, 'shuffled': False, 'alias': False},
+            {'t': 'reverse', 'k': 2},
+            {'t': 'antithetic', 'inner': 'halton', 'base': b, 'skip': 10, 'n': 2, 'R': 6, 'alias': False},
+        ]})
+    out.append({'kind': 'session', 'n_db': 2, 'ops': [
+        {'t': 'uniform', 'n': 2, 'R': 4, 'symmetric': False, 'alias': False},
+        {'t': 'lhs', 'n': 2, 'R': 4, 'symmetric': True, 'alias': True, 'given': None},
+        {'t': 'scale', 'k': 1, 'c': -1.0},
+        {'t': 'cat', 'name': 'UNIFORM_MLHS_ANTI', 'n': 2, 'R': 4},
+        {'t': 'wichura', 'n': 2, 'R': 4, 'antithetic': True, 'alias': False, 'given': [0.3, 0.25, 0.95, 0.4]},
+        {'t': 'cat', 'name': 'NORMAL_MLHS_ANTI', 'n': 2, 'R': 4},
+        {'t': 'fill', 'k': 0, 'c': 0.25},
+        {'t': 'cat', 'name': 'UNIFORMSYM_ANTI', 'n': 2, 'R': 4},
+        {'t': 'uniform', 'n': 2, 'R': 4, 'symmetric': True, 'alias': True},
+    ]})
+    out.append({'kind': 'session', 'n_db': 5, 'ops': [
+        {'t': 'gd', 'N': 5, 'types': ['UNIFORM_HALTON3', 'UNIFORM_HALTON3'], 'names': ['b10', 'b2'], 'dict_order': [1, 0], 'R': 4, 'entry': 'generate_draws'},
+        {'t': 'remove', 'N': 5, 'keep': 3},
+        {'t': 'gd', 'N': 5, 'types': ['UNIFORMSYM_HALTON3', 'NORMAL'], 'names': ['eps', 'Zeta'], 'dict_order': [0, 1], 'R': 6, 'entry': 'generateDraws'},
+        {'t': 'panel', 'N': 5},
+        {'t': 'gd', 'N': 5, 'types': ['UNIFORM_MLHS', 'UNIFORM_HALTON3'], 'names': ['xi', 'a_draw'], 'dict_order': [1, 0], 'R': 6, 'entry': 'generate_draws'},
+        {'t': 'remove', 'N': 5, 'keep': 2},
+        {'t': 'gd', 'N': 5, 'types': ['UNIFORM_HALTON3'], 'names': ['xi'], 'dict_order': [0], 'R': 2, 'entry': 'generate_draws'},
+    ]})
+    live = set(native())
+    return [c for c in out if all(nm in live for o in c['ops'] for nm in ([o['name']] if o['t'] == 'cat' else o.get('types', [])))]
+
+
+def check_session(ctx, res, case=None, use_model=True, rng=None):
+    import copy
+
+    case = copy.deepcopy(case) if case is not None else gen_session(rng or ctx.rng)
+    run_session(ctx, res, case, use_model=use_model, rng=rng)
+
+
+# --------------------------------------------------------------------------- the registry of user-defined generators
+
+W_REG = 'database.Database.set_random_number_generators / generate_draws: resolution of a type name'
+USER_KEYS = ['MYGEN', 'LOGN', 'exp_draws', 'UNIFORM_X', 'HALTON7', 'normal']
+
+
+def gen_registry_case(rng):
+    names = list(native())
+    sets = []
+    for i in range(rng.randint(1, 4)):
+        keys = rng.sample(USER_KEYS, rng.randint(1, 3))
+        if rng.random() < 0.45:
+            keys.insert(rng.randrange(len(keys) + 1), rng.choice(names))       # an attempt to take a catalogue name
+        sets.append({'keys': keys, 'plain_tuples': rng.random() < 0.4, 'alias': rng.random() < 0.3})
+    tried = [k for st in sets for k in st['keys']]
+    queries = list(dict.fromkeys(rng.sample(tried, min(len(tried), 4)) + [rng.choice(names), 'NOPE']))
+    return {'kind': 'registry', 'N': rng.choice([1, 2, 3, 5]), 'R': rng.choice([2, 4, 6]), 'sets': sets, 'queries': queries}
+
+
+def check_registry(ctx, res, rng, use_model=True, case=None):
+    """a history of registrations of user-defined generators on one Database, then requests by name"""
+    import warnings
+    import pandas as pd
+    import biogeme.database as db
+    import biogeme.deprecated as dep
+    from biogeme.native_draws import RandomNumberGeneratorTuple
+
+    case = case or gen_registry_case(rng)
+    N, R = case['N'], case['R']
+    res.count({k: case[k] for k in ('N', 'R', 'sets', 'queries')}, nontrivial=True)
+    res.tally('registry')
+    d = db.Database('c11registry', pd.DataFrame({'x': [float(i) for i in range(N)], 'y': [1.0] * N}))
+    live = set(native())
+    marker = {}       # (set number, key) -> the constant its generator delivers
+    accepted = []
+    last_ok = None
+    for i, st in enumerate(case['sets']):
+        table = {}
+        for j, key in enumerate(st['keys']):
+            m = 1000.0 + 16 * i + j
+            marker[(i, key)] = m
+
+            def g(sample_size, number_of_draws, m=m):
+                return np.full((sample_size, number_of_draws), m)
+
+            table[key] = (g, f'constant {m}') if st['plain_tuples'] else RandomNumberGeneratorTuple(g, f'constant {m}')
+        entry = 'setRandomNumberGenerators' if st['alias'] and not getattr(dep, 'RAISE_EXCEPTION', False) else 'set_random_number_generators'
+        res.tally(f'registry:{entry}')
+        with warnings.catch_warnings():
+            warnings.simplefilter('ignore')
+            try:
+                getattr(d, entry)(table)
+                out = 'accepted'
+            except Exception as e:  # noqa: BLE001
+                out = core.exc_kind(e)
+        accepted.append(out)
+        reserved = [k for k in st['keys'] if k in live]
+        if reserved and out != 'ValueError':
+            res.violate(f'registration {i}: a table of user-defined generators with the catalogue name {reserved[0]} among its keys is not refused by ValueError',
+                        case, out, 'ValueError', where=W_REG)
+        if not reserved:
+            if out != 'accepted':
+                res.violate(f'registration {i}: a table of user-defined generators without catalogue names is refused', case, out, 'accepted', where=W_REG)
+            else:
+                last_ok = i
+    # requests by name
+    resolved = []
+    for q in case['queries']:
+        st = Stream(rng, edges=False)     # the oracles below do not depend on the random numbers drawn
+        with patched(st), warnings.catch_warnings():
+            warnings.simplefilter('ignore')
+            try:
+                t = np.asarray(d.generate_draws({'v': q}, ['v'], R), dtype=float)
+                err = None
+            except Exception as e:  # noqa: BLE001
+                t, err = None, core.exc_kind(e)
+        if err is not None:
+            resolved.append('unknown' if err == 'BiogemeError' else f'raises {err}')
+        elif t.shape == (N, R, 1) and len(set(t.reshape(-1).tolist())) == 1 and t.reshape(-1)[0] >= 1000.0:
+            resolved.append(('user', float(t.reshape(-1)[0])))
+        else:
+            resolved.append('native')
+        r = resolved[-1]
+        if q in live:
+            # a catalogue name delivers the catalogue's draws, whatever was registered
+            if r != 'native' or t.shape != (N, R, 1):
+                res.violate(f'the catalogue name {q} does not deliver the draws of the catalogue after a history of registrations', case, str(r), 'the catalogued generator', where=W_REG)
+            else:
+                adv = parse_description(native()[q].description)
+                flat = t[:, :, 0].reshape(-1).tolist()
+                if adv['kind'] == 1 and not adv['normal'] and not adv['antithetic']:
+                    exp = _halton_expected(adv['base'], adv['skip'] if adv['skip'] is not None else 10, N * R, adv['interval'] == 'sym')
+                    if not all(_frac_close(x, e, adv['base'] == 2) for x, e in zip(flat, exp)):
+                        res.violate(f'the catalogue name {q} does not deliver the radical-inverse sequence of base {adv["base"]} after a history of registrations', case,
+                                    flat[:4], [float(e) for e in exp[:4]], where=W_REG)
+                lo, hi = {'unit': (0.0, 1.0), 'sym': (-1.0, 1.0), 'real': (-40.0, 40.0)}[adv['interval']]
+                if not all(lo <= x <= hi for x in flat):
+                    res.violate(f'the catalogue name {q}: entries outside the advertised support after a history of registrations', case, [x for x in flat if not lo <= x <= hi][:3],
+                                [lo, hi], where=W_REG)
+        elif last_ok is not None and q in case['sets'][last_ok]['keys']:
+            # the latest registration serves the name
+            if r != ('user', marker[(last_ok, q)]):
+                res.violate(f'the user-defined type {q} is not served by the generator registered last', case, str(r), marker[(last_ok, q)], where=W_REG)
+        elif not any(q in st_['keys'] for st_ in case['sets']):
+            if r != 'unknown':
+                res.violate(f'the type name {q} was never registered and is not catalogued, but is not refused by the library error', case, str(r), 'BiogemeError', where=W_REG)
+    if not use_model:
+        return
+
+    def cb(a):
+        if a['accepted'] != [x == 'accepted' for x in accepted]:
+            res.diverge('registrations accepted / refused: Draws.setGenerators vs the code', case, a['accepted'], accepted)
+            return
+        for q, m, r in zip(case['queries'], a['resolved'], resolved):
+            got = r if isinstance(r, str) else f'user:{q}'
+            if m != got and q not in live and (last_ok is None or q not in case['sets'][last_ok]['keys']) and any(q in st_['keys'] for st_ in case['sets']):
+                # a key of an earlier table only: the code replaces the registry (as modelled); merging the tables would not
+                # contradict the statement - recorded, not an alarm
+                res.notes.append(f'registry: {q} of an earlier table resolves to {r} (model: {m})')
+                continue
+            if m != got:
+                res.diverge(f'resolution of the type name {q}: Draws.resolve vs the code', case, m, str(r))
+                return
+
+    ctx.batch.add({'op': 'registry', 'sets': [st['keys'] for st in case['sets']], 'names': case['queries']}, cb)
+
+
+REGISTRY_CORPUS = [
+    {'kind': 'registry', 'N': 3, 'R': 4, 'sets': [{'keys': ['MYGEN', 'LOGN'], 'plain_tuples': False, 'alias': False},
+                                                  {'keys': ['UNIFORM_HALTON3', 'exp_draws'], 'plain_tuples': True, 'alias': False},
+                                                  {'keys': ['exp_draws'], 'plain_tuples': True, 'alias': True}],
+     'queries': ['UNIFORM_HALTON3', 'MYGEN', 'exp_draws', 'UNIFORMSYM_HALTON5', 'NOPE']},
+    {'kind': 'registry', 'N': 2, 'R': 2, 'sets': [{'keys': ['UNIFORM'], 'plain_tuples': False, 'alias': False}], 'queries': ['UNIFORM', 'UNIFORM_HALTON2', 'NOPE']},
+]
+
+
 # --------------------------------------------------------------------------- the check
 
 CORPUS_W = [1e-12, 0.6, 0.05, 0.46, 0.9, 0.074, 0.075, 0.45, 0.926, 0.5]
@@ -1196,6 +1928,13 @@ def translator_vs_runtime(ctx, res):
     got = {name: desc for name, _, desc, _ in cat}
     if got != live:
         res.diverge('catalogue keys / descriptions: translator vs live dictionary', {'kind': 'translator'}, sorted(got.items())[:3], sorted(live.items())[:3])
+    import biogeme.native_draws as nd
+
+    if hasattr(nd, 'description_of_native_draws'):
+        pub = nd.description_of_native_draws()
+        if dict(pub) != live:
+            res.diverge('description_of_native_draws() vs the descriptions of the catalogue', {'kind': 'translator'},
+                        sorted(set(dict(pub).items()) ^ set(live.items()))[:3], 'the same table')
 
     def cb(a):
         names = [e['name'] for e in a['entries']]
@@ -1227,6 +1966,18 @@ def check(ctx) -> Result:
             check_type(ctx, res, name, 2, 6, rng)
         for c in _user_corpus():
             check_user_generators(ctx, res, rng, case=c)
+        import copy
+
+        for c in REGISTRY_CORPUS:
+            if all(q in native() or q in USER_KEYS or q == 'NOPE' for q in c['queries']):
+                check_registry(ctx, res, rng, case=copy.deepcopy(c))
+        for _ in range(ctx.n(60, 1000)):
+            check_registry(ctx, res, rng)
+        # histories within this process (every later stream of the check also runs after them)
+        for c in _session_corpus():
+            check_session(ctx, res, case=c)
+        for _ in range(ctx.n(60, 800)):
+            check_session(ctx, res)
         # all catalogued types
         names = list(native())
         for name in names:
@@ -1247,8 +1998,82 @@ def check(ctx) -> Result:
         for _ in range(ctx.n(150, 4000)):
             check_user_generators(ctx, res, rng)
         check_malformed(ctx, res, rng)
+        for _ in range(ctx.n(60, 800)):
+            check_session(ctx, res)
         ctx.batch.flush()
+        confirm_violations(ctx, res)
     return res
+
+
+def _stub_ctx():
+    import random
+    import types
+
+    class _NoBatch:
+        items = []
+
+        def add(self, *a, **k):
+            pass
+
+        def add_many(self, *a, **k):
+            pass
+
+        def flush(self):
+            pass
+
+    return types.SimpleNamespace(rng=random.Random(0), batch=_NoBatch(), seed=0, quick=True, tier='quick', findings=[], n=lambda q, t: q)
+
+
+def replay_isolated(payload):
+    """entry point of core.run_isolated: does this case fail on its own, in a fresh interpreter?"""
+    return replay(_stub_ctx(), {'case': payload['case'], 'what': 'confirmation'})
+
+
+def _process_history(upto_session, then_ops):
+    """the operations of the sessions this process ran before session number `upto_session`, followed by `then_ops`"""
+    ops, off = [], 0
+    for sops, ncalls in _PROCESS_SESSIONS[:upto_session]:
+        for o in sops:
+            o2 = dict(o)
+            if o2['t'] in SESSION_MUT:
+                o2['k'] += off
+            ops.append(o2)
+        off += ncalls
+    for o in then_ops:
+        o2 = dict(o)
+        if o2['t'] in SESSION_MUT:
+            o2['k'] += off
+        ops.append(o2)
+    return {'kind': 'session', 'n_db': 1, 'ops': ops}
+
+
+def confirm_violations(ctx, res):
+    """The check is one long history in one process: when an earlier operation left state behind, a later case
+    can fail although it does not fail on its own.  Put first a violation whose case fails in a fresh interpreter
+    (its case is then the complete failing input); if none does, file the first one under the recorded history of
+    this process that leads to it.  Nothing happens on a tree without violations."""
+    cand = [v for v in res.violations if v.get('where') != W_F02 and isinstance(v.get('case'), dict)][:6]
+    if not cand:
+        return
+    for v in cand:
+        out = core.run_isolated('props.c11', 'replay_isolated', {'case': v['case']}, timeout=600)
+        if out.get('property_fails'):
+            res.violations = [v] + [x for x in res.violations if x is not v]
+            return
+    v = cand[0]
+    c = v['case']
+    if c.get('kind') == 'session':
+        hist = _process_history(c.get('session_no') or 0, c['ops'])
+    elif c.get('kind') == 'catalogue':
+        hist = _process_history(len(_PROCESS_SESSIONS), [{'t': 'cat', 'name': c['name'], 'n': c['n'], 'R': c['R'], 'us': c.get('us') or [], 'perms': c.get('perms') or []}])
+    else:
+        return
+    out = core.run_isolated('props.c11', 'replay_isolated', {'case': hist}, timeout=900)
+    if out.get('property_fails'):
+        v2 = {**v, 'case': hist, 'what': v['what'] + ' [after the recorded history of this process]'}
+        res.violations = [v2] + list(res.violations)
+    else:
+        res.notes.append('violations were observed that do not fail again in a fresh interpreter, neither alone nor after the recorded history of sessions')
 
 
 def _is_known(ctx, v):
@@ -1266,6 +2091,12 @@ def search(ctx, res, broken):
     rng = core.rng_for('C11-search', ctx.seed)
     r2 = Result()
     with core.scratch():
+        for c in _session_corpus():
+            check_session(ctx, r2, case=c, use_model=False, rng=rng)
+        for _ in range(150):
+            check_session(ctx, r2, use_model=False, rng=rng)
+        for _ in range(150):
+            check_registry(ctx, r2, rng, use_model=False)
         distinct_bases(ctx, r2)
         for name in list(native()):
             for _ in range(12):
@@ -1289,6 +2120,7 @@ def search(ctx, res, broken):
                 r2.violate(f'{name}: a Halton type that advertises no base', {'kind': 'catalogue', 'name': name, 'n': 1, 'R': 2, 'us': [], 'perms': []},
                            t.description, 'a base', where=f'native_draws.native_random_number_generators[{name}]')
     ctx.batch.items.clear()
+    confirm_violations(ctx, r2)
     for v in r2.violations:
         if not _is_known(ctx, v):
             res.violations.append(v)
@@ -1326,10 +2158,19 @@ def replay(ctx, obj):
             check_user_generators(ctx, r, core.rng_for('C11-replay', 0), use_model=False, case=case)
         elif k == 'distinct':
             distinct_bases(ctx, r)
+        elif k == 'registry':
+            check_registry(ctx, r, core.rng_for('C11-replay', 0), use_model=False, case=case)
+        elif k == 'session':
+            check_session(ctx, r, case=case, use_model=False, rng=core.rng_for('C11-replay', 0))
         else:
             out.update({'property_fails': False, 'note': 'nothing to replay (no concrete input in this file)'})
             return out
     ctx.batch.items.clear()
-    out['property_fails'] = bool(r.violations)
-    out['violations'] = [{kk: v[kk] for kk in ('what', 'observed', 'expected')} for v in r.violations[:2]]
+    viol = r.violations
+    if k in ('session', 'catalogue') and not case.get('u'):
+        # the stored input is not about the quantile transform: the listed finding F02, which every case with
+        # normal draws meets on the way, does not make it a failing input
+        viol = [v for v in viol if not (v.get('where') == W_F02 and MATCHERS['u_in_defect_region'](v.get('case')))]
+    out['property_fails'] = bool(viol)
+    out['violations'] = [{kk: v[kk] for kk in ('what', 'observed', 'expected')} for v in viol[:2]]
     return out
